@@ -62,6 +62,8 @@ type nctx struct {
 	// and `ref = e` ends the step with the reference the walk continues with
 	stepRef  types.Object
 	stepKind types.Object
+	loopCont func() string // inside a loop body: what `continue` means (post statement + next iteration)
+	pushQ    *nvar         // the traversal stack of all()/backward(): the function's result
 }
 
 func (c *nctx) fail(pos token.Pos, format string, args ...any) {
@@ -429,6 +431,14 @@ func (c *nctx) call(e *ast.CallExpr) (string, string) {
 					return "(min " + x + " " + y + ")", xs
 				}
 			}
+		case "append":
+			if len(e.Args) == 2 && !e.Ellipsis.IsValid() {
+				x, xs := c.expr(e.Args[0])
+				y, ys := c.expr(e.Args[1])
+				if xs == "refs" && ys == "ref" {
+					return "(" + x + " ++ [" + y + "])", "refs"
+				}
+			}
 		case "int":
 		}
 		c.fail(e.Pos(), "unsupported builtin %s", name)
@@ -505,6 +515,9 @@ func (c *nctx) store(lhs ast.Expr, val func(cur string, sort string) string) str
 		}
 		if v.sort == "img" || v.sort == "ref" {
 			c.fail(l.Pos(), "assignment to the %s variable %s", v.sort, l.Name)
+		}
+		if v.sort == "refs" && v != c.pushQ {
+			c.fail(l.Pos(), "assignment to the slice variable %s", l.Name)
 		}
 		return fmt.Sprintf("let %s : %s := %s\n", v.lean, c.leanType(v.sort), val(v.lean, v.sort))
 	case *ast.SelectorExpr:
@@ -669,6 +682,15 @@ func (c *nctx) stmts(list []ast.Stmt, k func() string) string {
 		}
 		return c.callStmt(call) + next()
 	case *ast.IfStmt:
+		if c.loopCont != nil && s.Init == nil && s.Else == nil && len(s.Body.List) == 1 {
+			if br, ok := s.Body.List[0].(*ast.BranchStmt); ok && br.Tok == token.CONTINUE && br.Label == nil {
+				cond := c.rhs(s.Cond, "bool")
+				saved := c.save()
+				cont := c.loopCont()
+				c.restore(saved)
+				return "if " + cond + " then do\n" + indentN(cont, "  ") + "else do\n" + indentN(next(), "  ")
+			}
+		}
 		return c.ifStmt(s, next)
 	case *ast.ForStmt:
 		return c.forStmt(s) + next()
@@ -1123,8 +1145,12 @@ func (c *nctx) assignedRoots(n ast.Node) []*nvar {
 					add(sel.X)
 				}
 			}
-		case *ast.BranchStmt, *ast.ReturnStmt:
-			c.fail(x.Pos(), "break/continue/return inside a loop is outside the fragment")
+		case *ast.BranchStmt:
+			if x.Tok != token.CONTINUE || x.Label != nil {
+				c.fail(x.Pos(), "break/goto inside a loop is outside the fragment")
+			}
+		case *ast.ReturnStmt:
+			c.fail(x.Pos(), "return inside a loop is outside the fragment")
 		}
 		return true
 	})
@@ -1235,10 +1261,14 @@ func (c *nctx) loopCore(pos token.Pos, probe ast.Node, counter *nvar, condCode f
 	c.nloops++
 	inner := c.save()
 	cond := condCode()
-	body := c.stmts(bodyStmts, func() string {
+	cont := func() string {
 		c.env, c.order = inner.env, inner.order
 		return postCode() + name + " E " + strings.Join(args, " ") + " fuel " + tuple + "\n"
-	})
+	}
+	outerCont := c.loopCont
+	c.loopCont = cont
+	body := c.stmts(bodyStmts, cont)
+	c.loopCont = outerCont
 	c.restore(inner)
 	var b strings.Builder
 	fmt.Fprintf(&b, "def %s (E : Env C) %s : Nat → %s → Option (%s)\n", name, strings.Join(params, " "), stType, stType)
@@ -1251,6 +1281,9 @@ func (c *nctx) loopCore(pos token.Pos, probe ast.Node, counter *nvar, condCode f
 
 // finish: what the function reports when it returns.
 func (c *nctx) finish() string {
+	if c.pushQ != nil {
+		return "pure " + c.pushQ.lean + "\n"
+	}
 	if !c.withRef {
 		return "pure " + c.recv.lean + "\n"
 	}
@@ -1417,6 +1450,96 @@ func (w *world) genWalkStep(name string) string {
 		b.WriteString(l + "\n")
 	}
 	fmt.Fprintf(&b, "def %s (E : Env C) (tag : Nat) (nd : Img C) : Option (Option C) := do\n%s", c.fname, indentN(code, "  "))
+	return b.String()
+}
+
+// genPushStep: all() / backward() of tree.go are `return func(yield …) { …; var q []nodeRef; q = append(q, root);
+// for len(q) != 0 { n := q[len(q)-1]; q = q[:len(q)-1]; if n.tag == nodeKindLeaf { … continue }; switch n.tag { … } } }`.
+// The switch – what the traversal pushes for one inner node – becomes `<name>_push (tag) (nd) (q) : Option (List (Option C))`:
+// the stack after the per-class loops have appended the node's children (in the order of appending).
+func (w *world) genPushStep(name string) string {
+	fd := w.findFunc(name, "")
+	c := &nctx{w: w, fname: name + "_push", env: map[types.Object]*nvar{}, used: map[string]int{}, viewOf: map[*nvar]*nvar{}}
+	fail := func(pos token.Pos, what string) { w.failAt(pos, "tree.go traversal translator (%s): expected %s", name, what) }
+	if len(fd.Body.List) != 1 {
+		fail(fd.Pos(), "a single `return func(yield …) { … }`")
+	}
+	ret, ok := fd.Body.List[0].(*ast.ReturnStmt)
+	if !ok || len(ret.Results) != 1 {
+		fail(fd.Pos(), "a single `return func(yield …) { … }`")
+	}
+	lit, ok := unparen(ret.Results[0]).(*ast.FuncLit)
+	if !ok {
+		fail(fd.Pos(), "a function literal")
+	}
+	var loop *ast.ForStmt
+	var qObj types.Object
+	for _, st := range lit.Body.List {
+		if ds, ok := st.(*ast.DeclStmt); ok {
+			if gd, ok := ds.Decl.(*ast.GenDecl); ok && gd.Tok == token.VAR && len(gd.Specs) == 1 {
+				vs := gd.Specs[0].(*ast.ValueSpec)
+				if len(vs.Names) == 1 && len(vs.Values) == 0 {
+					if sl, ok := w.info.Defs[vs.Names[0]].Type().Underlying().(*types.Slice); ok && w.isNamed(sl.Elem(), "nodeRef") {
+						qObj = w.info.Defs[vs.Names[0]]
+					}
+				}
+			}
+		}
+		if f, ok := st.(*ast.ForStmt); ok && f.Init == nil && f.Post == nil && f.Cond != nil && qObj != nil && w.text(f.Cond) == "len("+qObj.Name()+") != 0" {
+			loop = f
+		}
+	}
+	if loop == nil {
+		fail(lit.Pos(), "`var q []nodeRef` and `for len(q) != 0 { … }`")
+	}
+	body := loop.Body.List
+	if len(body) != 4 {
+		fail(loop.Pos(), "`n := q[len(q)-1]; q = q[:len(q)-1]; if n.tag == nodeKindLeaf { … }; switch n.tag { … }`")
+	}
+	q := qObj.Name()
+	as, ok := body[0].(*ast.AssignStmt)
+	if !ok || as.Tok != token.DEFINE || len(as.Lhs) != 1 || w.text(as.Rhs[0]) != q+"[len("+q+")-1]" {
+		fail(body[0].Pos(), "`n := q[len(q)-1]`")
+	}
+	nObj := w.info.Defs[as.Lhs[0].(*ast.Ident)]
+	if w.text(body[1]) != q+" = "+q+"[:len("+q+")-1]" {
+		fail(body[1].Pos(), "`q = q[:len(q)-1]`")
+	}
+	ifs, ok := body[2].(*ast.IfStmt)
+	if !ok || w.text(ifs.Cond) != nObj.Name()+".tag == nodeKindLeaf" || len(ifs.Body.List) == 0 {
+		fail(body[2].Pos(), "`if n.tag == nodeKindLeaf { … continue }`")
+	}
+	if br, ok := ifs.Body.List[len(ifs.Body.List)-1].(*ast.BranchStmt); !ok || br.Tok != token.CONTINUE {
+		fail(body[2].Pos(), "the leaf branch to end in `continue`")
+	}
+	sw, ok := body[3].(*ast.SwitchStmt)
+	if !ok {
+		fail(body[3].Pos(), "a switch on n.tag")
+	}
+	c.stepRef, c.refObj, c.dispatch = nil, nObj, true
+	c.used["tag"], c.used["nd"], c.used["E"], c.used["fuel"], c.used["loopFuel"] = 1, 1, 1, 1, 1
+	c.pushQ = c.declare(qObj, "refs")
+	code := c.switchStmt(sw, func() string { return c.finish() })
+	var b strings.Builder
+	for _, l := range c.loops {
+		b.WriteString(l + "\n")
+	}
+	fmt.Fprintf(&b, "def %s (E : Env C) (tag : Nat) (nd : Img C) (%s : List (Option C)) : Option (List (Option C)) := do\n%s", c.fname, c.pushQ.lean, indentN(code, "  "))
+	return b.String()
+}
+
+func genIterOps(w *world) string {
+	var b strings.Builder
+	b.WriteString("-- GENERATED by tools/extract from /repo/tree.go — do not edit.\n")
+	b.WriteString("import ArtVerif.Model.GoNode\n")
+	b.WriteString("set_option linter.unusedVariables false\n")
+	b.WriteString("namespace ArtVerif.Gen.IterOps\nopen ArtVerif ArtVerif.GoNode\nvariable {C : Type}\n\n")
+	b.WriteString("def loopFuel : Nat := 300\n\n")
+	b.WriteString("-- what the traversals push for one inner node (the switch inside `for len(q) != 0`)\n")
+	for _, f := range []string{"all", "backward", "filter"} {
+		b.WriteString(w.genPushStep(f) + "\n")
+	}
+	b.WriteString("end ArtVerif.Gen.IterOps\n")
 	return b.String()
 }
 
